@@ -308,7 +308,12 @@ fn attr_to(a: &r::AttributeInfo) -> Value {
 		A::Record { components, .. } => json!({"k": "Record", "components": list(components, |c| json!({"name_index": c.name_index, "descriptor_index": c.descriptor_index, "attributes": list(&c.attributes, attr_to)}))}),
 		A::PermittedSubclasses { classes, .. } => json!({"k": "PermittedSubclasses", "classes": classes}),
 		A::Other { info, .. } => json!({"k": "Other", "info": info}),
+		// a variant this projection does not know (a change of the repository that models one more attribute must not stop the
+		// harness from building): it travels as its debug text, which no value of the specification equals
+		#[allow(unreachable_patterns)]
+		other => json!({"k": "Unmodelled", "debug": format!("{other:?}")}),
 	};
+	#[allow(unreachable_patterns)]
 	let idx = match a {
 		A::ConstantValue { attribute_name_index, .. } | A::Code { attribute_name_index, .. } | A::StackMapTable { attribute_name_index, .. }
 		| A::Exceptions { attribute_name_index, .. } | A::InnerClasses { attribute_name_index, .. } | A::EnclosingMethod { attribute_name_index, .. }
@@ -322,6 +327,7 @@ fn attr_to(a: &r::AttributeInfo) -> Value {
 		| A::ModulePackages { attribute_name_index, .. } | A::ModuleMainClass { attribute_name_index, .. } | A::NestHost { attribute_name_index, .. }
 		| A::NestMembers { attribute_name_index, .. } | A::Record { attribute_name_index, .. } | A::PermittedSubclasses { attribute_name_index, .. }
 		| A::Other { attribute_name_index, .. } => *attribute_name_index,
+		_ => 0,
 	};
 	v.as_object_mut().expect("object").insert("attribute_name_index".into(), json!(idx));
 	v
